@@ -52,6 +52,14 @@ def proj_key(e):
     return str(e)
 
 
+TRANSPARENT_CALLS = {
+    "std::ops::Deref::deref", "std::ops::DerefMut::deref_mut", "std::convert::AsRef::as_ref", "std::convert::AsMut::as_mut",
+    "std::vec::Vec::<T, A>::as_slice", "std::vec::Vec::<T, A>::as_mut_slice", "std::borrow::Borrow::borrow",
+    "std::borrow::BorrowMut::borrow_mut", "std::string::String::as_str", "std::string::String::as_bytes",
+    "core::slice::<impl [T]>::as_ref",
+}
+
+
 class Body:
     def __init__(self, b, crate):
         self.raw = b
@@ -283,7 +291,7 @@ class Body:
             return ds[0]
         return None
 
-    def resolve_place(self, pl, depth=0):
+    def resolve_place(self, pl, depth=0, transparent=True):
         """rewrite a place through single-assignment copies/refs so it is rooted at a parameter,
         a call result or a multiply-defined local. returns (root_local, [proj keys])"""
         l = pl["l"]
@@ -297,6 +305,20 @@ class Body:
             if 1 <= l <= self.argc:
                 break
             sd = self.single_def(l)
+            if sd and sd[2] == "call" and transparent:
+                t = sd[3]
+                nm = callee_names(t["func"])
+                if nm and nm[0] in TRANSPARENT_CALLS and t["args"] and t["args"][0].get("k") in ("copy", "move"):
+                    src = t["args"][0]["pl"]
+                    l = src["l"]
+                    np = [proj_key(e) for e in src["p"]]
+                    # result is a reference to (part of) *arg0
+                    if projs and projs[0] == "*":
+                        projs = np + ["*"] + projs[1:]
+                    else:
+                        projs = np + projs
+                    continue
+                break
             if not sd or sd[2] != "assign":
                 break
             rv = sd[3]
@@ -348,6 +370,41 @@ class Body:
         l, projs = self.resolve_place(pl)
         nm = self.local_name(l) or ("_%d" % l)
         return nm + "".join(projs)
+
+    def opdesc(self, op):
+        """normalised description of an operand: parameter/local name + field path, ignoring refs/derefs.
+        e.g. `self.marker`, `marker`, `const:...`"""
+        if op.get("k") == "const":
+            if "int" in op:
+                return "const:%s" % op["int"]
+            if "item" in op:
+                return "const:" + op["item"]
+            if "fn" in op:
+                return "fn:" + op["fn"]
+            return "const"
+        return self.pldesc(op["pl"])
+
+    def pldesc(self, pl):
+        l, projs = self.resolve_place(pl)
+        nm = self.local_name(l) or ("_%d" % l)
+        return nm + "".join((" " + p if p.startswith("as ") else p) for p in projs if p not in ("*", "&"))
+
+    def op_root_ty(self, op):
+        """type of the root local an operand resolves to (through copies, refs, coercions)"""
+        if op.get("k") not in ("copy", "move"):
+            return op.get("ty", "")
+        l, projs = self.resolve_place(op["pl"])
+        return self.local_ty(l)
+
+    def call_result_of(self, op):
+        """if operand (after copies/refs) is rooted at a local defined by exactly one call, return (block, term)"""
+        if op.get("k") not in ("copy", "move"):
+            return None
+        l, projs = self.resolve_place(op["pl"])
+        sd = self.single_def(l)
+        if sd and sd[2] == "call":
+            return sd[0], sd[3], projs
+        return None
 
     # ---------- calls ----------
     def calls(self):
